@@ -219,9 +219,22 @@ def audit(case, o, e):
     return bad
 
 
-def compare(case, a, b, ea, eb):
+def effective_states(case, o, e):
+    """recorded rounds of a run.  An Alaska construction that raised inside its STV stage never attached that stage's rounds
+    to the outer election; they were recorded all the same (on the inner STV), so they are spliced in here, renumbered --
+    otherwise a divergence that starts at a *recorded* elimination tie of the STV stage would look unexplained."""
+    st = canon.cstates(e)
+    if case["rule"] == "Alaska" and o.election is None and len(st) == 2:
+        inner = [x for x in o.live if type(x).__name__ == "STV"]
+        if inner:
+            st = st + [dict(s, round=s["round"] + 1) for s in canon.cstates(inner[0])[1:]]
+    return st
+
+
+def compare(case, a, b, ea, eb, sa=None, sb=None):
     """clauses 1 and 2 on two runs (states lists, possibly partial) -> (clause, msg) or None"""
-    sa, sb = canon.cstates(ea), canon.cstates(eb)
+    if sa is None:
+        sa, sb = canon.cstates(ea), canon.cstates(eb)
     n = min(len(sa), len(sb))
     for r in range(n):
         if sa[r] != sb[r]:
@@ -286,14 +299,14 @@ def execute(case, trace=False):
             if ea is None or eb is None:
                 continue
             bad_exc = [x for x in (oa.exc, ob.exc) if x is not None and not isinstance(x, ValueError)]
-            r = compare(case, pa, pb, ea, eb)
+            sa, sb = effective_states(case, oa, ea), effective_states(case, ob, eb)
+            r = compare(case, pa, pb, ea, eb, sa, sb)
             if r:
                 viol(r[0], r[1])
                 continue
             if bad_exc:
                 bump(probes, "pair_with_foreign_exception")
                 continue
-            sa, sb = canon.cstates(ea), canon.cstates(eb)
             if sa[: min(len(sa), len(sb))] == sb[: min(len(sa), len(sb))]:
                 # identical prefix: the complete outcomes must agree (same length, same exception)
                 ta = type(oa.exc).__name__ if oa.exc else None
